@@ -1,6 +1,16 @@
 HOOK_COMMITS = []
-IMPLEMENTED = {"C01", "C02", "C03", "C04", "C05", "C09", "C10", "C11", "C12", "C14", "C18"}
+IMPLEMENTED = {"C01", "C02", "C03", "C04", "C05", "C06", "C07", "C09", "C10", "C11", "C12", "C14", "C18"}
 TABLE = {
+ "C06": {
+  "technique": "property testing over generated profiles x boundary-focused query times; oracle = mutual-consistency tables of the accessors with t1..t3 recovered by bisection",
+  "text": "For thousands of generated profiles (built-to-be-accepted, unconstrained and accept/reject-edge families; all three end-command kinds) the phase boundaries are recovered from get_piece by bisection and every accessor is queried at i64 extremes, negative times, each boundary +-1 ns and interior points of each phase; piece/mode/acceleration/velocity/position/history must describe the same instant, pieces must be monotone in t, the history value must be bit-identical to the matching accessor, and the end command must be returned forever after completion.",
+  "note": "A constructor panic is a legal outcome (counted). Boundaries are private and observed only through get_piece.",
+ },
+ "C07": {
+  "technique": "property testing against an f64 reference trapezoid with running error bound, exact mirror metamorphism, must-accept oracle",
+  "text": "Accepted profiles are compared at boundary and interior times with a reference trapezoid built from the inputs and the recovered integer boundaries (acceleration exact, velocity/position within 4x a derived f32 bound), start values must be exact, arrival at the goal within a tolerance proportional to f32 epsilon times the magnitudes involved, the mirrored profile must negate every output exactly with unchanged boundaries, and comfortably feasible moves must be accepted.",
+  "note": "Limits and positions in the ranges the quantifier states; the tolerance terms for ns truncation and f32 seconds are written out in evidence.",
+ },
  "C04": {
   "technique": "model-based property testing over generated input histories: f64 reference controller with running error bound, exact metamorphic relations, differential vs the crate's own stream assembly",
   "text": "Random gains/setpoints and event histories up to 64 events are run on the real PIDControllerStream; every output is compared with a textbook discrete PID evaluated in f64 under a derived f32 rounding bound (x4), outcomes and update() return values per event kind are asserted, timestamps shifted by a constant and inputs scaled by 2^k must reproduce the outputs exactly, and all-present histories are replayed through the controller assembled from Difference/Integral/Derivative/Product/Sum/NoneToValue/QuantityToFloat streams as in examples/pid.rs.",
